@@ -73,7 +73,7 @@ def _stale_start(rng, host):
 
 def generate(rng, index, tier):
     if index % 3001 == 41:
-        n = worlds.dict_size(rng, 70000) or 5000
+        n = worlds.dict_size(rng, 70000, k=index // 3001) or 5000
         filler = worlds.op_single(rng, 'MACH_MKRUNNABLE')
         s_, e_ = domains.draw(rng, 'BSC_open')
         if (index // 3001) % 2 == 0:
